@@ -38,7 +38,7 @@ class Ctx:
     # ------------------------------------------------------------------ lean
     def lean(self, extra_targets=()):
         pid = self.pid
-        ok, out = C.lean_build(["ltmodel"] + list(extra_targets))
+        ok, out = C.lean_build(C.model_targets(pid) + [t for t in extra_targets if t != "ltmodel"])
         if not ok:
             self.broken.append({"kind": "model-build", "names": C.failing_theorems(out),
                                 "log": out[-4000:]})
